@@ -9,7 +9,9 @@ def active (x : St) : Bool := x == .want || x == .ready || x == .queued || x == 
 /-- "past the gate": the build's ordering inputs were established to be in place. -/
 def gated (x : St) : Prop := x = .ready ∨ x = .queued ∨ x = .running ∨ x = .done ∨ x = .failed
 
-structure Inv (g : Graph) (par : Nat) (s : S) : Prop where
+/-- The part of the invariant that does not mention the runner: state/queue agreement,
+    counters, and the gate. -/
+structure InvCore (g : Graph) (s : S) : Prop where
   valid : ∀ b, s.st b ≠ .unknown → b < g.nBuilds
   readySt : ∀ id ∈ s.ready, s.st id = .ready
   readyNodup : s.ready.Nodup
@@ -18,14 +20,17 @@ structure Inv (g : Graph) (par : Nat) (s : S) : Prop where
   queuedNodup : ∀ p ∈ s.pools, p.queued.Nodup
   poolRunning : ∀ p ∈ s.pools,
     p.running = cnt g.nBuilds (fun b => s.st b == .running && (g.build b).pool == p.name)
-  running : s.running = cnt g.nBuilds (fun b => s.st b == .running)
   counts : ∀ x, x ≠ .unknown →
     s.counts.get x = cnt g.nBuilds (fun b => s.st b == x && !(g.build b).phony)
   pending : s.pending = cnt g.nBuilds (fun b => active (s.st b))
-  parBound : s.running ≤ par
-  depthBound : ∀ p ∈ s.pools, p.depth > 0 → p.running ≤ p.depth
   ordered : ∀ b, gated (s.st b) →
     ∀ f ∈ (g.build b).ordering, ∀ p, g.producer f = some p → s.st p = .done
+
+/-- The full invariant: the core, the runner's count, and the two limits. -/
+structure Inv (g : Graph) (par : Nat) (s : S) : Prop extends InvCore g s where
+  running : s.running = cnt g.nBuilds (fun b => s.st b == .running)
+  parBound : s.running ≤ par
+  depthBound : ∀ p ∈ s.pools, p.depth > 0 → p.running ≤ p.depth
 
 theorem Counts.get_add (c : Counts) (x y : St) (d : Int) (hx : x ≠ .unknown) :
     (c.add y d).get x = c.get x + (if y = x then d else 0) := by
@@ -100,8 +105,8 @@ theorem set_pools {g : Graph} {s s' : S} {bid : Nat} {new : St} (h : set g s bid
 /-- The generic part of invariant preservation by `set`: valid ids, pool names, per-pool and
     UI counts, pending.  Needs: a real build id, no transition to `Unknown`, none out of
     `Done`/`Failed`. -/
-theorem set_generic {g : Graph} {par : Nat} {s s' : S} {bid : Nat} {new : St}
-    (inv : Inv g par s) (h : set g s bid new = .ok s') (hid : bid < g.nBuilds)
+theorem set_generic {g : Graph} {s s' : S} {bid : Nat} {new : St}
+    (inv : InvCore g s) (h : set g s bid new = .ok s') (hid : bid < g.nBuilds)
     (hnew : new ≠ .unknown) (hprev : s.st bid ≠ .done ∧ s.st bid ≠ .failed) :
     (∀ b, s'.st b ≠ .unknown → b < g.nBuilds) ∧
     (s'.pools.map (·.name)).Nodup ∧
@@ -154,8 +159,8 @@ end N2V.Sched
 namespace N2V.Sched
 
 /-- The list-shaped and ordering parts of the invariant across one `set`. -/
-theorem set_frame {g : Graph} {par : Nat} {s s' : S} {bid : Nat} {new : St}
-    (inv : Inv g par s) (h : set g s bid new = .ok s')
+theorem set_frame {g : Graph} {s s' : S} {bid : Nat} {new : St}
+    (inv : InvCore g s) (h : set g s bid new = .ok s')
     (hprev : s.st bid ≠ .done)
     (hready : s.st bid = .ready → bid ∉ s.ready)
     (hqueued : s.st bid = .queued → ∀ p ∈ s.pools, bid ∉ p.queued)
@@ -219,12 +224,13 @@ theorem set_frame {g : Graph} {par : Nat} {s s' : S} {bid : Nat} {new : St}
       rw [upd_other _ _ _ _ hne]; exact this
 
 /-- The runner's count across one `set`. -/
-theorem set_running {g : Graph} {par : Nat} {s s' : S} {bid : Nat} {new : St}
-    (inv : Inv g par s) (h : set g s bid new = .ok s') (hid : bid < g.nBuilds) :
-    (cnt g.nBuilds (fun b => s'.st b == .running) : Int) = s.running + runDelta (s.st bid) new := by
+theorem set_running {g : Graph} {s s' : S} {bid : Nat} {new : St}
+    (h : set g s bid new = .ok s') (hid : bid < g.nBuilds) :
+    (cnt g.nBuilds (fun b => s'.st b == .running) : Int)
+      = cnt g.nBuilds (fun b => s.st b == .running) + runDelta (s.st bid) new := by
   obtain ⟨_, _, -, -, hst, -⟩ := set_spec h
   have hc := cnt_upd g s.st bid new hid (fun x _ => x == .running)
-  rw [hst, inv.running]
+  rw [hst]
   unfold runDelta
   by_cases h1 : s.st bid = .running <;> by_cases h2 : new = .running <;> simp [h1, h2] at hc ⊢ <;> omega
 
